@@ -91,8 +91,10 @@ def generate(rng, tier):
                     k = rng.choice([r.ptr, r.srv, r.txt] + r.addrs)
                     m2["an"] = [wire.RR(k.name, k.type, k.ttl, k.rdata).to_json()] if rng.random() < 0.7 else msg.get("an", [])
                 src_peer = peer if rng.random() < 0.85 else ("Q2" if peer == "Q1" else "Q1")
-                ops.append({"t": round(tt + 0.0000005 + qid * 0.000003, 7), "op": "send", "p": src_peer, "src_port": 5353,
-                            "msg": m2})
+                # (sp: now and then the whole train comes from a legacy source port - a resolver that asks from an
+                # ephemeral port and has more known answers than fit one packet)
+                ops.append({"t": round(tt + 0.0000005 + qid * 0.000003, 7), "op": "send", "p": src_peer,
+                            "src_port": sp if src_peer == "Q1" else 5353, "msg": m2})
                 qid += 1
                 tt += rng.choice([0.0, 0.01, 0.1, 0.399, 0.4, 0.401, 0.45, 0.499, 0.5, 0.501, 0.6])
             t = tt
@@ -204,8 +206,9 @@ def execute(scenario, seed, overrides=None):
             if not reg.s:
                 return
             stats["queries"] += 1
-            key = (rsock.label, src_ip)
             legacy = addr[1] != 5353
+            # "held for continuation packets from the same source": a querier on a legacy port is a source of its own
+            key = (rsock.label, src_ip) if not legacy else (rsock.label, src_ip, addr[1])
             if msg.tc:
                 stats["tc_packets"] += 1
                 d = st["deferred"].get(key)
@@ -233,7 +236,8 @@ def execute(scenario, seed, overrides=None):
                 w.loop.call_at(t + 0.5 + 2e-6, timer_probe, key, t, "B")
                 return
             # a one-shot query from a legacy port is another querier on that host: it neither joins nor ends the train
-            d = None if legacy else st["deferred"].pop(key, None)
+            # of the mDNS port (its key differs); it does end a train of its own
+            d = st["deferred"].pop(key, None)
             packets = []
             if d is not None:
                 if t <= d["last"] + 0.4 - 1e-9 and len(d["starts"]) == 1:
